@@ -382,8 +382,19 @@ def runBindModel (a : CaseAcc) : List String :=
     let idAt := fun (p : Nat) => (bo.chain.get p).c.id
     let fmtIds := fun (l : List Nat) => if l.isEmpty then "-" else ",".intercalate (l.map fun p => toString (idAt p))
     let ul := bo.chain.map fun f => s!"{f.c.id}:{fmtIds f.uses}:{fmtIds f.usedBy}"
+    -- the same relation per flow (0 returns, 1 outputs, 2 inputs, 3 received, 4 bypass) and per requested type
+    let fmtDet := fun (flow : Nat) (m : List (Ty × List Nat)) =>
+      (m.filter (fun e => !e.2.isEmpty)).map fun e => (flow, e.1, s!"{flow}/{e.1}>{fmtIds e.2}")
+    let sortDet := fun (l : List (Nat × Nat × String)) =>
+      (l.toArray.qsort (fun a b => a.1 < b.1 || (a.1 == b.1 && a.2.1 < b.2.1))).toList.map (·.2.2)
+    let joinDet := fun (l : List String) => if l.isEmpty then "-" else ";".intercalate l
+    let dl := bo.chain.map fun f =>
+      let ud := sortDet (fmtDet 2 f.usesIn ++ fmtDet 3 f.usesRecv ++ fmtDet 4 f.usesByp)
+      let ubd := sortDet (fmtDet 1 f.usedByOut ++ fmtDet 0 f.usedByRet)
+      s!"{f.c.id}:{joinDet ud}:{joinDet ubd}"
     [ "m5 ok " ++ " ".intercalate fl,
       "m5u " ++ " ".intercalate ul,
+      "m5d " ++ " ".intercalate dl,
       s!"m6 vcount={bo.slots.st.count} d={fmtTys (sortNat (bo.slots.st.dmap.map (·.1)))} u={fmtTys (sortNat (bo.slots.st.umap.map (·.1)))} z " ++ " ".intercalate zl ]
 
 def classOfStr (s : String) : ClassT :=
